@@ -188,6 +188,8 @@ def gen_cases(rng, names, tier, n):
 
 
 def case_term(case, res):
+    if case.get("k") == "ght":
+        return ght_term(case, res)
     if "ab" not in res:
         return 3  # panic / hang / crash: the model never panics
     sh, ta, tb = parse_name(case["sh"])
@@ -205,6 +207,9 @@ def case_term(case, res):
 
 
 def shrink(case):
+    if case.get("k") == "ght":
+        yield from shrink_ght(case)
+        return
     sh, ta, tb = parse_name(case["sh"])
     for f, t in (("db", tb), ("da", ta), ("b", tb), ("a", ta)):
         for sv in lat.shrink_value(t, case[f]):
@@ -219,6 +224,20 @@ def distribution(cases, results):
          "delta_b_changes_output": 0, "bottom_valued_entry_in_a_delta": 0, "bottom_valued_entry_in_b_delta": 0,
          "eq_l_false": 0, "eq_r_false": 0, "panics": 0}
     for c, r in zip(cases, results):
+        if c.get("k") == "ght":
+            key = "ght:%s:%s" % (c["bim"], c["shape"])
+            d["per_shape"]["ght:" + c["bim"]] = d["per_shape"].get("ght:" + c["bim"], 0) + 1
+            d["per_instance"][key] = d["per_instance"].get(key, 0) + 1
+            d["src"][c.get("src", "?")] = d["src"].get(c.get("src", "?"), 0) + 1
+            if "ab" not in r:
+                d["panics"] += 1
+                continue
+            d["output_nonempty"] += 1 if r["ab"] else 0
+            d["delta_a_changes_output"] += 1 if r["l"] != r["ab"] else 0
+            d["delta_b_changes_output"] += 1 if r["r"] != r["ab"] else 0
+            d["eq_l_false"] += 0 if r["eq_l"] else 1
+            d["eq_r_false"] += 0 if r["eq_r"] else 1
+            continue
         sh = c["sh"].split("|")[0]
         d["per_shape"][sh] = d["per_shape"].get(sh, 0) + 1
         d["per_instance"][c["sh"]] = d["per_instance"].get(c["sh"], 0) + 1
@@ -235,3 +254,83 @@ def distribution(cases, results):
         d["eq_l_false"] += 0 if r["eq_l"] else 1
         d["eq_r_false"] += 0 if r["eq_r"] else 1
     return d
+
+
+# ------------------------------------------------------------------ GHT bimorphisms
+def g_rows(rows):
+    return "[" + "; ".join("[" + "; ".join("%d" % x for x in r) + "]" for r in rows) + "]"
+
+
+def gen_rows(rng, arity, nk, n):
+    out = []
+    for _ in range(n):
+        r = [rng.below(3) for _ in range(nk)] + [rng.choice([0, 1, 2, 5, 9]) for _ in range(arity - nk)]
+        if r not in out:
+            out.append(r)
+    return out
+
+
+def perturb_rows(rng, rows, arity, nk):
+    rows = [list(r) for r in rows]
+    r = rng.below(4)
+    if r == 0 or not rows:
+        return rows + [x for x in gen_rows(rng, arity, nk, rng.range(1, 2)) if x not in rows]
+    if r == 1:
+        # same key, another value: lands in an existing leaf
+        base = list(rng.choice(rows))
+        if arity > nk:
+            base[-1] = rng.choice([0, 1, 2, 5, 9])
+        return rows + ([base] if base not in rows else [])
+    if r == 2:
+        return rows[:-1]
+    return gen_rows(rng, arity, nk, rng.below(4))
+
+
+def gen_ght_cases(rng, shapes, tier, n):
+    cases = []
+    per = max(2, n // max(1, 2 * len(shapes)))
+    for sh in shapes:
+        for bim in ("join", "cart"):
+            for _ in range(per):
+                nk, ar = sh["nk"], sh["arity"]
+                a = gen_rows(rng, ar, nk, rng.below(5))
+                da = perturb_rows(rng, a, ar, nk)
+                b = perturb_rows(rng, rng.choice([a, da]), ar, nk) if rng.chance(2, 3) else gen_rows(rng, ar, nk, rng.below(5))
+                db = perturb_rows(rng, b, ar, nk)
+                if rng.chance(1, 2):
+                    a, da = da, a
+                if rng.chance(1, 2):
+                    b, db = db, b
+                cases.append({"k": "ght", "shape": sh["shape"], "bim": bim, "nk": nk, "arity": ar, "nko": sh["nko"],
+                              "a": a, "da": da, "b": b, "db": db, "src": "rnd"})
+    return cases
+
+
+def ght_term(case, res):
+    if "ab" not in res:
+        return 3
+    g = "GDeepJoin" if case["bim"] == "join" else "(GCartP %d%%nat)" % case["nko"]
+    obs = "(Build_gobs %s %s %s %s %s %s %s %s %s)" % tuple(
+        [g_rows(res[k]) for k in ("ab", "dab", "adb", "l", "ml", "r", "mr")] + [g_bool(res["eq_l"]), g_bool(res["eq_r"])])
+    return "(gbchk %d%%nat %s %s %s %s %s %s)" % (case["nk"], g, g_rows(case["a"]), g_rows(case["da"]),
+                                                  g_rows(case["b"]), g_rows(case["db"]), obs)
+
+
+def shrink_ght(case):
+    for f in ("db", "da", "b", "a"):
+        rows = case[f]
+        for i in range(len(rows)):
+            c2 = dict(case)
+            c2[f] = rows[:i] + rows[i + 1:]
+            c2["src"] = "shrunk"
+            yield c2
+        for i, r in enumerate(rows):
+            for j, x in enumerate(r):
+                if x > 0:
+                    r2 = list(r)
+                    r2[j] = 0
+                    if r2 not in rows:
+                        c2 = dict(case)
+                        c2[f] = rows[:i] + [r2] + rows[i + 1:]
+                        c2["src"] = "shrunk"
+                        yield c2
